@@ -324,12 +324,17 @@ class SyntheticBranch(SyntheticBlock):
 
         old_branch_value_table = self.branch_value_table
         new_branch_value_table = {}
-        for target in self._jump_targets:
+        for idx, target in enumerate(self._jump_targets):
             if target not in jump_targets:
-                # ASSUMPTION: only one jump_target is being updated
-                diff = set(jump_targets).difference(self._jump_targets)
-                assert len(diff) == 1
-                new_target = next(iter(diff))
+                if len(jump_targets) == len(self._jump_targets):
+                    # Same arity: replacement is positional, so several
+                    # jump_targets may be updated at once.
+                    new_target = jump_targets[idx]
+                else:
+                    # ASSUMPTION: only one jump_target is being updated
+                    diff = set(jump_targets).difference(self._jump_targets)
+                    assert len(diff) == 1
+                    new_target = next(iter(diff))
                 for k, v in old_branch_value_table.items():
                     if v == target:
                         new_branch_value_table[k] = new_target
